@@ -23,8 +23,11 @@ Definition C05_strict_full : Prop :=
         scalars: nothing more).  Required keys, null at non-null, list structure, object shape, nested
         objects at any depth and __typename literals are enforced exactly.
         UNION-typed composite fields are included (the discriminated union is as strict as the members'
-        classes).  INTERFACE-typed ones are included when every possible type has its own inline fragment
-        and every type condition names the interface or a possible type (strict_sub); there the relaxed
+        classes).  INTERFACE-typed ones are included when every type condition names the interface or a
+        possible type (strict_sub) and, unless every possible type has its own inline fragment, __typename is
+        selected there only under its own key (una_ok: the base class validates the objects of all possible
+        types without a variant, its Literal lists them all, and two differently aliased __typename fields
+        would admit two different names; C05_interface_base_variant_satisfiable); there the relaxed
         relation's third parameter (self_ok = true, Exec.abs_candidates) makes the ONE exception explicit:
         the interface's own name is admitted as runtime type, because the Literal of the generated base
         class contains it (finding F8; C05_interface_self_typename_accepted, C05_interface_hypotheses_satisfiable).
@@ -93,6 +96,28 @@ Theorem C05_object_strict :
                    (collect_scopes fc S frs tn [(false, sels)]) kv = true.
 Proof. exact obj_strict. Qed.
 Print Assumptions C05_object_strict.
+
+(* one generated class whose __typename Literal lists several names tvs (the base class at an interface
+   position: r the interface, tvs its own name and the possible types without a variant): the validated
+   object is lax-conformant for ONE runtime type of tvs — the one its __typename names.  tvs = [r] is
+   C05_object_strict. *)
+Theorem C05_object_strict_variants :
+  forall C S frs mx fuel gs nested pub cn r sels at_ eb tv tvs out pub' cs kv n,
+    parse_type_def fuel C S frs pub cn r sels at_ eb tv = Ok (out, pub', false) ->
+    tvs <> [] ->
+    (forall rt, In rt tvs -> exists g, sels_ok g true C S frs mx at_ rt r sels = true) ->
+    sels_strict gs C S frs mx nested r sels = true ->
+    (tvs = [r] \/ (at_ = true /\ exists gu, una_ok gu S frs r sels = true)) ->
+    (at_ = true -> has_typename sels = true) ->
+    tv = (if nested then Some tvs else None) -> table_ok cs out ->
+    mx_ok cs mx = true -> harmless cs eb ->
+    accepts n cs (schema_enums S) (AClass cn) (JObj kv) = true ->
+    covers n cs (AClass cn) (JObj kv) = true ->
+    exists rt, In rt tvs /\ exists fc0, forall fc, fc >= fc0 ->
+      conf_obj_gen false (conf_val_gen lax_leaf false true fc S frs) S rt
+                   (collect_scopes fc S frs rt [(false, sels)]) kv = true.
+Proof. exact obj_strict_gen. Qed.
+Print Assumptions C05_object_strict_variants.
 
 (* the lax relation is exactly Exec.v's relation plus the table: it contains every conformant
    response, and on non-null values the generated scalar annotation accepts exactly lax_leaf *)
@@ -394,6 +419,53 @@ Example C05_at_mixin_hypotheses_satisfiable :
     conf_op 10 SY frsNx "Query" selsNx (userNx (JObj [("city", JStr "X")])) = true /\
     accepts 22 cls (schema_enums SY) (AClass (pascal_s "GetUsers")) (userNx (JObj [("city", JNull)])) = false /\
     accepts 22 cls (schema_enums SY) (AClass (pascal_s "GetUsers")) (userNx (JObj [])) = false.
+Proof.
+  do 3 eexists.
+  split; [reflexivity|].
+  split; [vm_compute; reflexivity|].
+  split; [vm_compute; reflexivity|].
+  vm_compute. repeat split.
+Qed.
+
+(* ---- an interface position where possible types have NO fragment of their own (B, C: validated by the
+        base class, whose Literal is ["B"; "C"; "Named"]) next to one that has (A), and an interface
+        position without any fragment: inside C05_strict_partial; foreign names, wrong leaves, A's field on
+        a B object (undeclared key: not covered) are rejected ---- *)
+Definition SI3 : schema :=
+  {| s_types := [("Query", DObject [] [("named", TNamed "Named"); ("plain", TNamed "Named")]);
+                 ("Named", DInterface [] [("name", TNamed "String")]);
+                 ("A", DObject ["Named"] [("name", TNamed "String"); ("x", TNamed "Int")]);
+                 ("B", DObject ["Named"] [("name", TNamed "String")]);
+                 ("C", DObject ["Named"] [("name", TNamed "String"); ("y", TNamed "Int")]);
+                 ("Int", DScalar); ("String", DScalar)];
+     s_query := Some "Query"; s_mutation := None; s_subscription := None |}.
+Definition selsI3 : list sel :=
+  [SField None "named" false []
+     (Some [SField None "__typename" false [] None; SField None "name" false [] None;
+            SInline (Some "A") false [SField None "x" false [] None]]);
+   SField None "plain" false []
+     (Some [SField None "__typename" false [] None; SField None "name" false [] None])].
+Definition jI3 (tn1 : string) (extra : list (string * json)) (tn2 : string) : json :=
+  JObj [("named", JObj ([("__typename", JStr tn1); ("name", JStr "n")] ++ extra));
+        ("plain", JObj [("__typename", JStr tn2); ("name", JNull)])].
+Example C05_interface_base_variant_satisfiable :
+  exists own pub' cls,
+    root_type_name SI3 "query" = Ok "Query" /\
+    op_parse 10 C0 SI3 [] "query" "Q" [] selsI3 = Ok (own, pub', false) /\
+    all_classes 10 C0 SI3 [] (DOp "query" "Q" [] selsI3) = Ok cls /\
+    op_ok 10 true C0 SI3 [] [] [] "Query" selsI3 = true /\ sels_strict 10 C0 SI3 [] [] false "Query" selsI3 = true /\
+    no_basemodel own = true /\
+    map c_name cls = ["Q"; "QNamedNamed"; "QNamedA"; "QPlain"] /\
+    (let j := jI3 "B" [] "C" in
+     accepts 12 cls (schema_enums SI3) (AClass "Q") j = true /\ covers 12 cls (AClass "Q") j = true /\
+     conf_op 10 SI3 [] "Query" selsI3 j = true) /\
+    (let j := jI3 "A" [("x", JInt 1)] "A" in
+     accepts 12 cls (schema_enums SI3) (AClass "Q") j = true /\ covers 12 cls (AClass "Q") j = true /\
+     conf_op 10 SI3 [] "Query" selsI3 j = true) /\
+    accepts 12 cls (schema_enums SI3) (AClass "Q") (jI3 "D" [] "C") = false /\
+    accepts 12 cls (schema_enums SI3) (AClass "Q") (jI3 "B" [] "Query") = false /\
+    accepts 12 cls (schema_enums SI3) (AClass "Q") (jI3 "A" [("x", JStr "no")] "C") = false /\
+    covers 12 cls (AClass "Q") (jI3 "B" [("x", JInt 1)] "C") = false.
 Proof.
   do 3 eexists.
   split; [reflexivity|].
